@@ -1,0 +1,31 @@
+//go:build verif
+
+package vandermonde
+
+// Contracts for the deductive checker in /verif (comment-only; compiled only under the verif tag).
+//
+// vpow(x, k) = x^k, multiplied up in the order the code multiplies (x^k = x^(k-1) * x, x^0 = 1).
+// BuildVandermondeMatrix returns the len(nodes) x cols matrix whose entry (r, j) is nodes[r]^j, for every row and every
+// column, row-major; it fails when there are no nodes or no columns.
+
+//@ ghost func vpow(x V, k Int) V
+//@ theory vpow
+//@ axiom Vpow0: forall x V :: vpow(x, 0) == rone()
+//@ axiom VpowS: forall x V, k Int :: k > 0 ==> vpow(x, k) == rmul(vpow(x, k - 1), x)
+//@ end
+
+//@ func BuildVandermondeMatrix
+//@   property C20
+//@   bind E ring, FiniteRing ringS
+//@   uses vpow
+//@   nopanic
+//@   ensures (len(nodes) == 0 || cols == 0) ==> err != nil
+//@   ensures err == nil ==> result != nil && result.m == len(nodes) && result.n == cols && len(result.v) == len(nodes) * cols
+//@   ensures err == nil ==> forall r, j int :: 0 <= r && r < len(nodes) && 0 <= j && j < cols ==> result.v[r*cols + j] == vpow(nodes[r], j)
+//@   loop range(nodes)
+//@     invariant len(input) == n*c && n == len(nodes) && c == cols && c > 0
+//@     invariant forall rr, jj int :: 0 <= rr && rr < r && 0 <= jj && jj < c ==> input[rr*c + jj] == vpow(nodes[rr], jj)
+//@   loop for(j < c)
+//@     invariant 1 <= j && j <= c && len(input) == n*c && n == len(nodes) && c == cols
+//@     invariant forall rr, jj int :: 0 <= rr && rr < r && 0 <= jj && jj < c ==> input[rr*c + jj] == vpow(nodes[rr], jj)
+//@     invariant forall jj int :: 0 <= jj && jj < j ==> input[r*c + jj] == vpow(nodes[r], jj)
